@@ -354,8 +354,9 @@ def _run(case: dict[str, Any], module_dir: str, module_name: str) -> dict[str, A
     return info
 
 
-def evaluate(case: dict[str, Any]) -> Outcome:
-    """In-process (a shard is a fresh interpreter; ``Session.close`` undoes global effects); SIGALRM watchdog against hangs."""
+def evaluate_in_process(case: dict[str, Any]) -> Outcome:
+    """Runs inside the worker process, several cases one after the other (``Session.close`` undoes global effects); SIGALRM is
+    the inner watchdog against hangs."""
     import signal
     import sys
 
@@ -419,4 +420,25 @@ def evaluate(case: dict[str, Any]) -> Outcome:
     out.nontrivial = info["n_preds"] >= 2 and info["n_branchless"] >= 1 and partial_b and partial_l
     out.sample = {"sut": sut if sut["kind"] == "corpus" else {"kind": "pygen", "module": module_name, "features": pg.features_of(sut["model"])},
                   "tests": info["n_tests"], "predicates": info["n_preds"], "branchless_code_objects": info["n_branchless"], "recount": tot}
+    return out
+
+
+def evaluate(case: dict[str, Any]) -> Outcome:
+    """Evaluates the case in the shard's persistent forked worker (vf/c15c24c35_worker.py): a crash of the interpreter while
+    instrumented code runs, or a hang, ends the worker, not the shard, and is reported as inconclusive (not this property)."""
+    from vf.c15c24c35_worker import run_in_worker
+
+    kind, value = run_in_worker(__name__, "evaluate_in_process", case, timeout=700)
+    if kind == "ok":
+        return value
+    out = Outcome()
+    if kind == "exc":
+        out.fail(f"unexpected-exception|{value['sig']}", value["detail"])
+    elif kind == "signal":
+        out.labels.append("class:interpreter-crash")
+        out.inconclusive = f"interpreter died with signal {value} while the case ran (instrumented code; C01-C03, not this property)"
+    elif kind == "timeout":
+        out.inconclusive = "case exceeded 700 s in the worker"
+    else:
+        out.inconclusive = f"worker exited with code {value}"
     return out
